@@ -1262,7 +1262,8 @@ func rawStoreReason(b *ssa.BasicBlock) string {
 		for _, fc := range fs {
 			// a verdict computed from what the selector parser returned (a helper that turns the parsed steps into keys
 			// and says whether all of them were keys)
-			if _, isBin := fc.cond.(*ssa.BinOp); !isBin {
+			// (the verdict must be the negative one: `!ok`, `!isKeyPath(steps)`)
+			if _, isBin := fc.cond.(*ssa.BinOp); !isBin && !fc.truth {
 				if t := NewTB().Of(fc.cond).String(); strings.Contains(t, "ParseSelector(") || strings.Contains(t, "CachedSelectors(") {
 					out = "parser"
 				}
@@ -1272,7 +1273,7 @@ func rawStoreReason(b *ssa.BasicBlock) string {
 				if _, isTA := x.Tuple.(*ssa.TypeAssert); isTA && !fc.truth {
 					return "non-key"
 				}
-				if call, isCall := x.Tuple.(*ssa.Call); isCall {
+				if call, isCall := x.Tuple.(*ssa.Call); isCall && !fc.truth {
 					for _, a := range call.Call.Args {
 						if t := NewTB().Of(a).String(); strings.Contains(t, "ParseSelector(") || strings.Contains(t, "CachedSelectors(") {
 							out = "parser"
